@@ -3,4 +3,5 @@ EXTENDS PamsSystem
 cSess == << [steps |-> 1, place |-> TRUE, exec |-> FALSE, maxN |-> 1, maxH |-> 1, rate |-> 2],
             [steps |-> 2, place |-> TRUE, exec |-> TRUE, maxN |-> 1, maxH |-> 1, rate |-> 2] >>
 cPrices == {3, 4, 5}
+cNoHalt == [on |-> FALSE, targets |-> {}, num |-> 1, den |-> 1, len |-> 0]
 ====
